@@ -21,33 +21,82 @@ namespace h {
 
 // ------------------------------------------------------------------------------------------- error / exception types
 
+// Payloads make a wrong move observable: moving a value / error out of an object leaves kMoved behind, copies are exact.
+// Whoever later reads the moved-from object (a second reader of a shared state, a Result handed on after it was consumed)
+// reports kMoved, which no program of the model can produce.  A moved-from std::exception_ptr is null and reported as
+// exception kMoved as well (DescExc).
+inline constexpr int kMoved = -7777;
+
 struct Err {
   int code;
   explicit Err(int c) noexcept : code{c} {
   }
   Err(yaclib::StopTag) noexcept : code{-1} {  // StopError <-> code -1
   }
+  Err(const Err& o) noexcept : code{o.code} {
+  }
+  Err(Err&& o) noexcept : code{o.code} {
+    o.code = kMoved;
+  }
+  Err& operator=(const Err& o) noexcept {
+    code = o.code;
+    return *this;
+  }
+  Err& operator=(Err&& o) noexcept {
+    if (this != &o) {
+      code = o.code;
+      o.code = kMoved;
+    }
+    return *this;
+  }
   const char* What() const noexcept {
     return "h::Err";
   }
 };
+
+// the value type of the "int" worlds
+struct Pay {
+  int v;
+  explicit Pay(int x) noexcept : v{x} {
+  }
+  Pay(const Pay& o) noexcept : v{o.v} {
+  }
+  Pay(Pay&& o) noexcept : v{o.v} {
+    o.v = kMoved;
+  }
+  Pay& operator=(const Pay& o) noexcept {
+    v = o.v;
+    return *this;
+  }
+  Pay& operator=(Pay&& o) noexcept {
+    if (this != &o) {
+      v = o.v;
+      o.v = kMoved;
+    }
+    return *this;
+  }
+};
+
+// Worlds are still named by int / void (programs, table keys, Coq's TInt / TVoid); int stands for Pay
+template <class V>
+using PayOf = std::conditional_t<std::is_void_v<V>, void, Pay>;
 
 struct Ex {
   int id;
 };
 
 template <class V>
-using Fut = yaclib::Future<V, Err>;
+using Fut = yaclib::Future<PayOf<V>, Err>;
 template <class V>
-using FutOn = yaclib::FutureOn<V, Err>;
+using FutOn = yaclib::FutureOn<PayOf<V>, Err>;
 template <class V>
-using Tsk = yaclib::Task<V, Err>;
+using Tsk = yaclib::Task<PayOf<V>, Err>;
 template <class V>
-using Sh = yaclib::SharedFuture<V, Err>;
+using Sh = yaclib::SharedFuture<PayOf<V>, Err>;
 template <class V>
-using ShOn = yaclib::SharedFutureOn<V, Err>;
+using ShOn = yaclib::SharedFutureOn<PayOf<V>, Err>;
 template <class V>
-using Rs = yaclib::Result<V, Err>;
+using Rs = yaclib::Result<PayOf<V>, Err>;
 
 // The worlds.  Index = 2 * kind + (void ? 1 : 0) + 1, kind: 0 Future, 1 FutureOn, 2 Task, 3 SharedFuture, 4 SharedFutureOn
 using World = std::variant<std::monostate, Fut<int>, Fut<void>, FutOn<int>, FutOn<void>, Tsk<int>, Tsk<void>, Sh<int>,
@@ -111,7 +160,7 @@ struct Prog;
 enum PClass { pR = 0, pV = 1, pE = 2, pX = 3, pN = 4, pU = 5, pA = 6 };
 // return classes: value type in the low bit (0 int, 1 void), shape in the rest
 enum RClass { rI = 0, rV = 1, rRI = 2, rRV = 3, rFI = 4, rFV = 5, rSI = 6, rSV = 7, rTI = 8, rTV = 9, rOI = 10, rOV = 11 };
-enum Mode { mThrow = 0, mRet = 1, mResVal = 2, mResErr = 3, mResExc = 4, mAsync = 5 };
+enum Mode { mThrow = 0, mRet = 1, mResVal = 2, mResErr = 3, mResExc = 4, mAsync = 5, mShared = 6 };
 enum Attach { aInline = 0, aOn = 1, aInherit = 2 };
 
 struct FnSpec {
@@ -255,6 +304,8 @@ struct Parser {
     } else if (m == "resexc") {
       f.mode = mResExc;
       f.k = Int();
+    } else if (m == "shared") {
+      f.mode = mShared;
     } else {
       f.mode = mAsync;
       f.inner = std::make_shared<Prog>(ParseProg());
@@ -357,7 +408,7 @@ inline Ctx*& Cur() {
   return c;
 }
 
-using AnyPromise = std::variant<yaclib::Promise<int, Err>, yaclib::Promise<void, Err>, yaclib::SharedPromise<int, Err>,
+using AnyPromise = std::variant<yaclib::Promise<Pay, Err>, yaclib::Promise<void, Err>, yaclib::SharedPromise<Pay, Err>,
                                 yaclib::SharedPromise<void, Err>>;
 
 struct Ctx {
@@ -368,6 +419,7 @@ struct Ctx {
   int live = 0;
   int draining = 0;
   std::string problem;
+  World shared;  // the one SharedFuture of a (share ...) case, returned by callbacks with behaviour (shared)
 
   Ctx() {
     for (int i = 0; i < 3; ++i) {
@@ -470,6 +522,9 @@ struct Token {
 // ------------------------------------------------------------------------------------------ describing what was seen
 
 inline Res DescExc(const std::exception_ptr& p) {
+  if (p == nullptr) {
+    return Res{3, kMoved};  // moved-from
+  }
   try {
     std::rethrow_exception(p);
   } catch (const Ex& e) {
@@ -479,14 +534,14 @@ inline Res DescExc(const std::exception_ptr& p) {
   }
 }
 
-template <class V>
-Res DescResult(const Rs<V>& r) {
+template <class PV>
+Res DescResult(const yaclib::Result<PV, Err>& r) {
   switch (r.State()) {
     case yaclib::ResultState::Value:
-      if constexpr (std::is_void_v<V>) {
+      if constexpr (std::is_void_v<PV>) {
         return Res{1, 0};
       } else {
-        return Res{0, r.Value()};
+        return Res{0, r.Value().v};
       }
     case yaclib::ResultState::Error:
       return Res{2, r.Error().code};
@@ -503,8 +558,8 @@ inline Input Desc(const Rs<int>& r) {
 inline Input Desc(const Rs<void>& r) {
   return Input{0, DescResult(r)};
 }
-inline Input Desc(int x) {
-  return Input{1, Res{0, x}};
+inline Input Desc(const Pay& x) {
+  return Input{1, Res{0, x.v}};
 }
 inline Input Desc(const Err& e) {
   return Input{2, Res{2, e.code}};
@@ -522,7 +577,7 @@ template <int R>
 struct RetT;
 template <>
 struct RetT<rI> {
-  using type = int;
+  using type = Pay;
 };
 template <>
 struct RetT<rV> {
@@ -609,8 +664,14 @@ struct FnBase {
     if (spec->mode == mThrow) {
       throw Ex{d + spec->k};
     }
+    if constexpr (R == rSI || R == rSV) {
+      if (spec->mode == mShared) {
+        // a copy of the one shared handle of a (share ...) case: exactly one new reference
+        return std::get<Ret>(Cur()->shared);
+      }
+    }
     if constexpr (R == rI) {
-      return d + spec->k;
+      return Pay{d + spec->k};
     } else if constexpr (R == rV) {
       return;
     } else if constexpr (R == rRI) {
@@ -650,7 +711,7 @@ struct Fn<V, pR, R> : FnBase<R> {
 template <int R>
 struct Fn<int, pV, R> : FnBase<R> {
   using FnBase<R>::FnBase;
-  typename FnBase<R>::Ret operator()(int x) {
+  typename FnBase<R>::Ret operator()(Pay x) {
     return this->Body(Desc(x));
   }
 };
@@ -697,7 +758,7 @@ template <int P>
 struct Probe;
 template <>
 struct Probe<pV> {
-  int operator()(int);
+  int operator()(Pay);
 };
 template <>
 struct Probe<pN> {
@@ -719,7 +780,7 @@ constexpr bool Invocable() {
   if constexpr (G == 0) {
     return yaclib::is_invocable_v<F, Rs<V>>;
   } else if constexpr (G == 1) {
-    return yaclib::is_invocable_v<F, V>;
+    return yaclib::is_invocable_v<F, PayOf<V>>;
   } else if constexpr (G == 2) {
     return yaclib::is_invocable_v<F, Err>;
   } else if constexpr (G == 3) {
@@ -809,12 +870,12 @@ World Ready(int wk, const Res& r) {
         if constexpr (std::is_void_v<V>) {
           return World{yaclib::MakeTask<void, Err>()};
         } else {
-          return World{yaclib::MakeTask<int, Err>(r.payload)};
+          return World{yaclib::MakeTask<Pay, Err>(r.payload)};
         }
       case 2:
-        return World{yaclib::MakeTask<V, Err>(Err{r.payload})};
+        return World{yaclib::MakeTask<PayOf<V>, Err>(Err{r.payload})};
       default:
-        return World{yaclib::MakeTask<V, Err>(std::make_exception_ptr(Ex{r.payload}))};
+        return World{yaclib::MakeTask<PayOf<V>, Err>(std::make_exception_ptr(Ex{r.payload}))};
     }
   }
   switch (r.kind) {
@@ -823,19 +884,19 @@ World Ready(int wk, const Res& r) {
       if constexpr (std::is_void_v<V>) {
         return World{yaclib::MakeFuture<void, Err>()};
       } else {
-        return World{yaclib::MakeFuture<int, Err>(r.payload)};
+        return World{yaclib::MakeFuture<Pay, Err>(r.payload)};
       }
     case 2:
-      return World{yaclib::MakeFuture<V, Err>(Err{r.payload})};
+      return World{yaclib::MakeFuture<PayOf<V>, Err>(Err{r.payload})};
     default:
-      return World{yaclib::MakeFuture<V, Err>(std::make_exception_ptr(Ex{r.payload}))};
+      return World{yaclib::MakeFuture<PayOf<V>, Err>(std::make_exception_ptr(Ex{r.payload}))};
   }
 }
 
 template <class V>
 World Contract(Ctx& c, const Src& s) {
   if (s.w == kS) {
-    auto [f, p] = yaclib::MakeSharedContract<V, Err>();
+    auto [f, p] = yaclib::MakeSharedContract<PayOf<V>, Err>();
     if (s.late) {
       c.pending.emplace_back(AnyPromise{std::move(p)}, s.res);
     } else {
@@ -844,7 +905,7 @@ World Contract(Ctx& c, const Src& s) {
     return World{std::move(f)};
   }
   if (s.w == kO) {
-    auto [f, p] = yaclib::MakeContractOn<V, Err>(c.Executor(s.exec));
+    auto [f, p] = yaclib::MakeContractOn<PayOf<V>, Err>(c.Executor(s.exec));
     if (s.late) {
       c.pending.emplace_back(AnyPromise{std::move(p)}, s.res);
     } else {
@@ -852,7 +913,7 @@ World Contract(Ctx& c, const Src& s) {
     }
     return World{std::move(f)};
   }
-  auto [f, p] = yaclib::MakeContract<V, Err>();
+  auto [f, p] = yaclib::MakeContract<PayOf<V>, Err>();
   if (s.late) {
     c.pending.emplace_back(AnyPromise{std::move(p)}, s.res);
   } else {
@@ -887,15 +948,15 @@ World Prom(Ctx& c, const Src& s) {
   auto& e = c.Executor(s.exec);
   switch (s.w) {
     case kF:
-      return World{yaclib::AsyncContract<V, Err>(PromFn<yaclib::Promise<V, Err>>{&s})};
+      return World{yaclib::AsyncContract<PayOf<V>, Err>(PromFn<yaclib::Promise<PayOf<V>, Err>>{&s})};
     case kO:
-      return World{yaclib::AsyncContract<V, Err>(e, PromFn<yaclib::Promise<V, Err>>{&s})};
+      return World{yaclib::AsyncContract<PayOf<V>, Err>(e, PromFn<yaclib::Promise<PayOf<V>, Err>>{&s})};
     case kS:
-      return World{yaclib::AsyncSharedContract<V, Err>(PromFn<yaclib::SharedPromise<V, Err>>{&s}).On(nullptr)};
+      return World{yaclib::AsyncSharedContract<PayOf<V>, Err>(PromFn<yaclib::SharedPromise<PayOf<V>, Err>>{&s}).On(nullptr)};
     case kSO:
-      return World{yaclib::AsyncSharedContract<V, Err>(e, PromFn<yaclib::SharedPromise<V, Err>>{&s})};
+      return World{yaclib::AsyncSharedContract<PayOf<V>, Err>(e, PromFn<yaclib::SharedPromise<PayOf<V>, Err>>{&s})};
     default:
-      return World{yaclib::LazyContract<V, Err>(e, PromFn<yaclib::Promise<V, Err>>{&s})};
+      return World{yaclib::LazyContract<PayOf<V>, Err>(e, PromFn<yaclib::Promise<PayOf<V>, Err>>{&s})};
   }
 }
 
@@ -1072,6 +1133,12 @@ inline std::optional<Input> Invoked(int par, const Res& r) {
 
 inline Expect Oracle(const Prog& p);
 
+// the Result of the shared source of a (share ...) case: every user of the handle sees it
+inline const Res*& SharedExpect() {
+  static const Res* r = nullptr;
+  return r;
+}
+
 inline void OracleCall(const FnSpec& f, const Input& in, Expect& x) {
   x.calls.emplace_back(f.id, in);
   const int d = Digest(in);
@@ -1090,6 +1157,9 @@ inline void OracleCall(const FnSpec& f, const Input& in, Expect& x) {
       break;
     case mResExc:
       x.res = Res{3, d + f.k};
+      break;
+    case mShared:
+      x.res = *SharedExpect();  // flattened: the step completes with the Result stored in the shared state
       break;
     default: {
       Expect in2 = Oracle(*f.inner);
@@ -1207,6 +1277,146 @@ inline Outcome RunProgram(const Prog& p) {
     }
     out.fail = "callbacks invoked [" + EventsStr(out.events) + "], the sequential reading gives [" + want + "]";
     out.key = "calls";
+  }
+  return out;
+}
+
+// ------------------------------------------------------------------------------- one shared source, several users
+//
+// (share <extra handles> SRC P1 P2): SRC builds a SharedFuture (fulfilled before or after the rest is built); the two
+// pipelines P1, P2 are built one after the other, their callbacks with behaviour (shared) return copies of that one handle;
+// afterwards both pipelines and the handle itself are read.  Sequential reading: the Result stored in the shared state
+// never changes, so every step that flattens it completes with it, whatever ran before.
+
+struct ShareOutcome {
+  Res final1, final2, direct, direct_again;
+  std::vector<Event> events;
+  std::string fail;
+  std::string key;
+  int live_after = 0;
+  bool tokens_once = true;
+};
+
+inline void CollectIds(const Prog& p, std::set<int>& ids) {
+  auto fn = [&](const FnSpec& f, auto&& self) -> void {
+    ids.insert(f.id);
+    if (f.inner) {
+      CollectIds(*f.inner, ids);
+    }
+    (void)self;
+  };
+  if (p.src.kind == 2) {
+    fn(p.src.fn, fn);
+  } else if (p.src.kind == 3 || p.src.kind == 4) {
+    ids.insert(p.src.id);
+  }
+  for (const Op& op : p.ops) {
+    if (op.kind == 0) {
+      fn(op.fn, fn);
+    }
+  }
+}
+
+inline Res ReadShared(const World& w) {
+  return std::visit(
+    [](const auto& h) -> Res {
+      using H = std::decay_t<decltype(h)>;
+      if constexpr (std::is_same_v<H, Sh<int>> || std::is_same_v<H, Sh<void>>) {
+        if (!h.Ready()) {
+          return Res{5, 0};
+        }
+        return DescResult(h.Get());  // const&: a copy-free read of the stored Result
+      } else {
+        return Res{7, 0};
+      }
+    },
+    w);
+}
+
+inline ShareOutcome RunShare(int extra, const Prog& src, const Prog& p1, const Prog& p2) {
+  ShareOutcome out;
+  {
+    Ctx ctx;
+    Cur() = &ctx;
+    {
+      World s = ctx.Build(src);
+      if (auto* a = std::get_if<ShOn<int>>(&s)) {
+        ctx.shared = World{std::move(*a).On(nullptr)};
+      } else if (auto* b = std::get_if<ShOn<void>>(&s)) {
+        ctx.shared = World{std::move(*b).On(nullptr)};
+      } else if (std::holds_alternative<Sh<int>>(s) || std::holds_alternative<Sh<void>>(s)) {
+        ctx.shared = std::move(s);
+      } else {
+        Die("the source of a share case is not a SharedFuture");
+      }
+      std::vector<World> extras;
+      for (int i = 0; i < extra; ++i) {
+        extras.push_back(std::visit([](const auto& h) -> World {
+          using H = std::decay_t<decltype(h)>;
+          if constexpr (std::is_same_v<H, Sh<int>> || std::is_same_v<H, Sh<void>>) {
+            return World{H{h}};
+          } else {
+            return World{};
+          }
+        }, ctx.shared));
+      }
+      World w1 = ctx.Build(p1);
+      World w2 = ctx.Build(p2);
+      ctx.Quiesce();
+      out.final1 = Final(std::move(w1));
+      ctx.Quiesce();
+      out.final2 = Final(std::move(w2));
+      ctx.Quiesce();
+      out.direct = ReadShared(ctx.shared);
+      out.direct_again = ReadShared(ctx.shared);
+      extras.clear();
+      ctx.shared = World{};
+    }
+    ctx.Quiesce();
+    out.events = ctx.events;
+    out.live_after = ctx.live;
+    for (auto& [id, n] : ctx.created) {
+      if (ctx.destroyed[id] != n) {
+        out.tokens_once = false;
+      }
+    }
+    Cur() = nullptr;
+  }
+  // oracle
+  Expect xs = Oracle(src);
+  SharedExpect() = &xs.res;
+  Expect x1 = Oracle(p1);
+  Expect x2 = Oracle(p2);
+  SharedExpect() = nullptr;
+  std::set<int> ids0, ids1, ids2;
+  CollectIds(src, ids0);
+  CollectIds(p1, ids1);
+  CollectIds(p2, ids2);
+  auto part = [&](const std::set<int>& ids) {
+    std::vector<std::pair<int, Input>> v;
+    for (const auto& e : out.events) {
+      if (ids.count(e.id) != 0) {
+        v.emplace_back(e.id, e.in);
+      }
+    }
+    return v;
+  };
+  auto bad = [&](const char* who, const Res& got, const Res& want) {
+    out.fail = std::string{who} + " sees " + got.Str() + ", the Result stored in the shared state / the sequential reading gives " +
+               want.Str();
+    out.key = "shared-result";
+  };
+  if (!(out.final1 == x1.res)) {
+    bad("the 1st pipeline", out.final1, x1.res);
+  } else if (!(out.final2 == x2.res)) {
+    bad("the 2nd pipeline", out.final2, x2.res);
+  } else if (!(out.direct == xs.res)) {
+    bad("a direct read of the SharedFuture", out.direct, xs.res);
+  } else if (!(out.direct_again == xs.res)) {
+    bad("a second direct read of the SharedFuture", out.direct_again, xs.res);
+  } else if (part(ids0) != xs.calls || part(ids1) != x1.calls || part(ids2) != x2.calls) {
+    out.fail = "callbacks invoked [" + EventsStr(out.events) + "] differ from the sequential reading of the source / the pipelines";
+    out.key = "shared-calls";
   }
   return out;
 }
